@@ -327,8 +327,11 @@ func c17concCall(raw json.RawMessage) (any, error) {
 					stack = append(stack, append(append([]int{}, x.choices[:i]...), alt))
 				}
 			}
-			if n > 20000 {
-				return nil, fmt.Errorf("c17conc: more than 20000 interleavings for %v", cs.Ops)
+			if n >= 20000 {
+				// reported, not an error: the case is explored up to the cap
+				res.Counters["capped-cases"]++
+				res.Counters["non-exhaustive"]++
+				break
 			}
 		}
 		res.Counters["interleavings:"+strings.Join(cs.Ops, "+")] += n
